@@ -25,6 +25,12 @@ TICK = 1024
 
 
 # ------------------------------------------------------------------ random installations
+def raw_version_payload(gen: int, version, update_byte: int) -> bytes:
+    """0x1F/0xFF30 payload for a console that flags the update with any non-zero byte (the documents say: 0 = no)"""
+    text = ("|" if gen == 4 else ",").join(version[1]).encode()
+    return b"\xff\x30" + bytes([update_byte if version[0] else 0, len(text)]) + text
+
+
 def rand_bits(rng, n):
     b = [rng.random() < 0.7 for _ in range(n)]
     return b
@@ -552,7 +558,12 @@ def check_c10(tier: str) -> int:
                 else:
                     inst.version = (rng.random() < 0.5, rng.choice([["1.2.3"], ["2.0", "2.1"]]))
                     msg = inst.version_message()
-                rig.console.push(msg)
+                if k == 4 and inst.version[0] and rng.random() < 0.5 and rig.net.current() is not None:
+                    rig.console.pid = (rig.console.pid + 1) % 256
+                    rig.console.send(rig.net.current(), sockrun.build_frame(gen, 0xB0, 0x90, rig.console.pid, 0x1F,
+                                                                            raw_version_payload(gen, inst.version, rng.choice([2, 0x80, 0xFF]))))
+                else:
+                    rig.console.push(msg)
                 rig.pump()
                 script.append(("frame", 0xB0, msg))
                 ck.note_case((gen, i, repr(msg)[:80]))
@@ -702,7 +713,10 @@ def check_c12(tier: str) -> int:
             else:
                 ver = (rng.random() < 0.5, rng.choice([["1.2.3"], ["2.0"]]))
                 inst.version = ver
-                script.append(("frame", 0xB0, inst.version_message()))
+                if ver[0] and rng.random() < 0.5:
+                    script.append(("rawframe", 0xB0, 0x1F, raw_version_payload(gen, ver, rng.choice([2, 0x80, 0xFF])), inst.version_message()))
+                else:
+                    script.append(("frame", 0xB0, inst.version_message()))
                 expect.append([(s, 0) for s in ref.at] if (ver[0], list(ver[1])) != (last_ver[0], list(last_ver[1])) else [])
                 last_ver = ver
                 dist["version-frame"] += 1
